@@ -19,6 +19,12 @@ avoid={
  'C16':['Header::read with a single read()','read_current_page treating read errors as EOF','ignoring the result of the final flush'],
  'C17':['not resetting the page cache on failure','skipping the seek when the tracked reader position matches'],
  'C19':['data_offset = section_offset + 32','Single limits losing precision="single"'],
+ 'C04':['escaping order of the extension URL attribute','the XML nesting-depth guard miscounting CDATA content','inverting a flag symmetrically in writer and reader','misspelling a tag symmetrically'],
+ 'C08':['packet_length - header_size underflow when skipping index/ignored packets','narrowing ByteStreamReadBuffer::extract to 8 bytes (slice panic)','string slicing at non-char boundaries in the XML depth guard'],
+ 'C12':['narrowing ByteStreamReadBuffer::extract to u64','integer_bits via floating point log2'],
+ 'C13':['unit-range fast path that skips clamping','blue channel range looked up from the green record','inverse of a subnormal range'],
+ 'C18':['is_tag using lookup_prefix instead of comparing with the parent namespace','blob attributes matched by local name with last-wins'],
+ 'C20':['e57-from-xyz: continue without line.clear() for short lines','e57-unpack: projection mask file written from the image blob'],
 }
 extra=avoid.get(pid,[])
 if extra:
